@@ -5,13 +5,16 @@ from .base import *
 from .parsers_util import *
 
 RULE = ("authsrv: right hash x declared padding0 lengths from the boundary table (0..65535) x 1-5-way fragmentations; all 256 "
-        "single-bit and 32 single-byte deviations of the hash; hashes of related passwords; every truncation of a valid preamble "
+        "single-bit and 32 single-byte deviations of the hash; structured near-misses (same mask on 2/3/4 bytes = XOR-fold zero, byte "
+        "swaps/rotations/permutation/reversal = same multiset, +d/-d = same sum, first-k / last-k bytes equal for k = 1..31, "
+        "alternate bytes equal, complement, all-zero, all-0xFF); hashes of related passwords; every truncation of a valid preamble "
         "(open and closed transport); every 2-way split of a short preamble; random preambles. authtls: real TLS connections to "
-        "Server::listen (right hash with several paddings/fragmentations, bit/byte deviations, related passwords, truncations). "
+        "Server::listen (right hash with several paddings/fragmentations, bit/byte deviations, near-misses, related passwords, "
+        "truncations, and a slow peer: a few preamble bytes, > 11 s of silence, then frames). "
         "Non-trivial = hash differs from the right one in <= 8 bits, or is right with padding > 0, or the input is fragmented "
         "(>= 2 non-empty chunks), or the case is an end-to-end TLS connection; distinct by sha256 of the case.")
-SIDE_LEMMAS = 0
-ASSUMPTIONS = ["SHA-256 is the sha2 crate (trusted); the comparison `password_hash != *expected` compares all 32 bytes",
+SIDE_LEMMAS = 3
+ASSUMPTIONS = ["SHA-256 is the sha2 crate (trusted); that the comparison is `password_hash != *expected_password_hash` on whole arrays and that handle_connection propagates the result with a bare `.await?` before building the session are re-read from the sources on every run (Generated.auth_*, side lemmas in FactsParsers.v)",
                "tokio AsyncReadExt::read_exact loops over partial reads and reports UnexpectedEof at end of input (modelled by Reader.v's read_exact)",
                "the session's reaction to the bytes after the preamble is a parameter of server_conn (M4, another package); the end-to-end TLS cases tie handle_connection's order of operations",
                "model tied to auth.rs / server.rs by differential execution on the cases counted below (sampling)"]
@@ -38,6 +41,70 @@ def ref_auth(h, data, eof):
     if len(data) < 34 + L:
         return short
     return "OK " + hx(data[34 + L:])
+
+
+def near_misses(r, h, quick):
+    """32-byte strings that agree with h under some weaker notion of equality (XOR fold, multiset, sum, prefix, suffix...)"""
+    out = []
+
+    def put(kind, b):
+        b = bytes(b)
+        if b != h and len(b) == 32:
+            out.append((kind, b))
+    # same mask on 2 / 4 bytes: the byte-wise XOR difference folds to zero
+    pairs = [(3, 28), (0, 31), (0, 1), (15, 16), (30, 31)] + [tuple(sorted(r.sample(range(32), 2))) for _ in range(6 if quick else 60)]
+    for (i, j) in pairs:
+        for mask in ([0x80, 0x01, 0xff] if quick else [0x80, 0x40, 0x01, 0x0f, 0x55, 0xff, r.randint(1, 255)]):
+            b = bytearray(h); b[i] ^= mask; b[j] ^= mask
+            put("xor-fold-pair", b)
+    for _ in range(6 if quick else 60):
+        idx = r.sample(range(32), 4)
+        mask = r.randint(1, 255)
+        b = bytearray(h)
+        for i in idx:
+            b[i] ^= mask
+        put("xor-fold-quad", b)
+    for _ in range(4 if quick else 40):           # three masks a, b, a^b
+        i, j, k = r.sample(range(32), 3)
+        a, c = r.randint(1, 255), r.randint(1, 255)
+        b = bytearray(h); b[i] ^= a; b[j] ^= c; b[k] ^= a ^ c
+        put("xor-fold-triple", b)
+    # same multiset of bytes
+    for (i, j) in [(0, 1), (0, 31), (7, 19)] + [tuple(r.sample(range(32), 2)) for _ in range(4 if quick else 40)]:
+        b = bytearray(h); b[i], b[j] = b[j], b[i]
+        put("byte-swap", b)
+    for k in ([1, 16, 31] if quick else range(1, 32)):
+        put("rotation", h[k:] + h[:k])
+    put("reversed", h[::-1])
+    b = bytearray(h); r.shuffle(b); put("permutation", b)
+    # same sum of bytes
+    for _ in range(6 if quick else 60):
+        i, j = r.sample(range(32), 2)
+        d = r.choice([1, 1, 2, 16, 128])
+        b = bytearray(h)
+        if b[i] + d <= 255 and b[j] - d >= 0:
+            b[i] += d; b[j] -= d
+            put("sum-preserving", b)
+    # equal in the first k / last k bytes only
+    for k in range(1, 32):
+        b = bytearray(h)
+        for i in range(k, 32):
+            b[i] ^= 0xA5 if (quick or r.random() < 0.5) else r.randint(1, 255)
+        put("first-k-equal", b)
+        b = bytearray(h)
+        for i in range(0, 32 - k):
+            b[i] ^= 0x5A if (quick or r.random() < 0.5) else r.randint(1, 255)
+        put("last-k-equal", b)
+    # every second byte equal, nibbles swapped, case-like changes
+    put("even-bytes-equal", bytes(x if i % 2 == 0 else x ^ 0xff for i, x in enumerate(h)))
+    put("odd-bytes-equal", bytes(x if i % 2 == 1 else x ^ 0xff for i, x in enumerate(h)))
+    put("nibbles-swapped", bytes(((x << 4) | (x >> 4)) & 255 for x in h))
+    put("complement", bytes(x ^ 0xff for x in h))
+    put("all-zero", bytes(32))
+    put("all-ff", b"\xff" * 32)
+    put("incremented", bytes((x + 1) & 255 for x in h))
+    put("hex-text-of-hash", h.hex().encode()[:32])
+    return out
 
 
 def corpus_cases():
@@ -94,6 +161,13 @@ def gen_cases(tier, seed):
     # related passwords
     for pw in RELATED:
         add(H, frag(r, preamble(hashlib.sha256(pw).digest(), 0) + rbytes(r, 4), 3), False, "related-password")
+    # structured near-misses: every one must be refused with nothing consumed beyond the 32 bytes
+    for kind, h2 in near_misses(r, H, quick):
+        tail = preamble(h2, r.choice([0, 0, 2]))[32:] + rbytes(r, r.choice([0, 3]))
+        add(H, frag(r, h2 + tail, 3), r.random() < 0.2, "near-" + kind, True)
+    h3 = rbytes(r, 32)
+    for kind, h2 in near_misses(r, h3, True)[:: (4 if quick else 1)]:
+        add(h3, [h2, b"\x00\x00"], False, "near-" + kind, True)
     # hash that is right only in a prefix / suffix
     for k in (1, 8, 16, 31):
         add(H, [H[:k] + bytes(32 - k), b"\x00\x00"], False, "prefix-only", True)
@@ -142,6 +216,17 @@ def gen_cases(tier, seed):
         tls(hashlib.sha256(pw).digest(), 30, None, "-", "tls-related-password")
     for cut in ((10, 32, 33, 40) if quick else (0, 1, 10, 31, 32, 33, 34, 40, 63)):
         tls(H, 30, cut, "-", "tls-truncated")
+    nm = near_misses(r, H, True)
+    want = ["xor-fold-pair", "xor-fold-quad", "byte-swap", "rotation", "sum-preserving", "first-k-equal", "last-k-equal", "reversed", "complement", "all-ff"]
+    for kind in want:
+        cands = [b for k2, b in nm if k2 == kind]
+        for h2 in (cands[:1] if quick else cands[:6]):
+            tls(h2, r.choice([0, 30]), None, "-", "tls-near-" + kind)
+            tls(h2, 0, None, "-", "tls-near-%s-bare" % kind, "h")
+    # slow peer: TLS up, n bytes of the right hash, silence longer than any plausible authentication timeout, then
+    # frames for a local listener: no dial, no reply (a server that stops waiting must drop the connection, not keep it)
+    for nbytes, ms in ([(5, 11000)] if quick else [(0, 11000), (5, 11500), (31, 12000), (5, 31000)]):
+        cs.append(Case("slow%d_%d" % (nbytes, ms), "authtls", [hx(H), 0, "-", "-", "s", nbytes, ms], "tls-slow-peer", True, model=False))
     tls(bytes(32), 0, None, "-", "tls-zero-hash")
     tls(bytes(32), 0, None, "-", "tls-zero-hash-bare", "h")
     tls(hashlib.sha256(b"Verif").digest(), 0, None, "-", "tls-related-password-bare", "h")
@@ -160,6 +245,11 @@ def oracle(c, ir):
         f = dict(t.split("=") for t in ir.split() if "=" in t)
         if "DIAL" not in f:
             return "end-to-end driver failed: " + ir
+        if len(c.args) > 4 and c.args[4] == "s":
+            if f["DIAL"] != "0" or f["REPLY"] != "0":
+                return ("a peer that sent only %s preamble bytes, stayed silent %s ms and then sent frames got a session "
+                        "without the password: %s" % (c.args[5], c.args[6], ir))
+            return None
         if h == H and cut == "-":
             return None if f["DIAL"] == "1" else "right password but the target was never dialled: " + ir
         if h != H:
